@@ -121,6 +121,12 @@ Proof.
   - right. exists l. split; assumption.
 Qed.
 
+(* the crawler sits between two cycles; its listing cache, if any, is not the
+   entry of prefix 0 (it does not depend on any directory contents) *)
+Definition idle_ok (m : mstate) : Prop :=
+  ps_current (ms_p m) = None /\ ps_next (ms_p m) = 0 /\ ps_lcb (ms_p m) = None /\
+  forall j, fst (ms_cache m) = Some j -> 0 < j.
+
 Section Dirs.
   Variable dirs : list (list name).
 
@@ -208,8 +214,18 @@ Section Dirs.
   Lemma NoDup_todoL n lcb : NoDup (todoL n lcb).
   Proof. apply NoDup_filter, NoDup_enum_range. Qed.
 
-  Definition cache_ok (cache : option nat * list name) : Prop :=
-    forall i, cache_hit cache i = true -> snd cache = sdir i.
+  (* The one-entry listing cache.  It may be stale (left over from an earlier
+     cycle, possibly over other directory contents) as long as its prefix index
+     lies ahead of a prefix that will be listed first: listing a prefix always
+     replaces the entry.  With at least two prefix directories the entry left by
+     a finished cycle (the last prefix) is therefore harmless. *)
+  Hypothesis HP2 : 2 <= P.
+
+  Definition cache_okw (n : nat) (cache : option nat * list name) : Prop :=
+    forall j, fst cache = Some j -> snd cache = sdir j \/ n < j.
+
+  Definition cache_at (j : nat) (cache : option nat * list name) : Prop :=
+    fst cache = Some j /\ snd cache = sdir j.
 
   Lemma Pre_step n lcb lcb1 :
     Pre n lcb -> (lcb1 = lcb \/ exists b, lcb1 = Some b /\ In b (sdir n) /\ notskip lcb b = true) -> Pre n lcb1.
@@ -222,29 +238,36 @@ Section Dirs.
   Proof. intros HP L j b Lj I. apply (HP j b); [lia|exact I]. Qed.
 
   Lemma prefix_loop_spec c : forall k n lcb cache o evs next' lcb' cache' x,
-    k = P - n -> n <= P -> Pre n lcb -> cache_ok cache ->
+    k = P - n -> n <= P -> Pre n lcb -> cache_okw n cache ->
     prefix_loop dirs c (seq n k) n lcb cache o = (evs, next', lcb', cache', x) ->
     exists done rest,
       todoL n lcb = done ++ rest /\
       Forall (front_ev c) evs /\
       procs evs = map (pe c) done /\
-      cache_ok cache' /\
+      ((x = true -> exists j, cache_at j cache' /\ next' <= S j) /\
+       (x = false -> (k = 0 /\ cache' = cache) \/ cache_at (P - 1) cache')) /\
       (x = false -> rest = []) /\
       (x = true -> todoL next' lcb' = rest /\ Pre next' lcb' /\ next' <= P).
   Proof.
     induction k as [|k IH]; intros n lcb cache o evs next' lcb' cache' x Hk Hn HP HC H; cbn in H.
     - assert (n = P) by lia. subst n. injection H as E1 E2 E3 E4 E5; subst evs next' lcb' cache' x.
       exists [], []. rewrite todoL_end. cbn.
-      split; [reflexivity|]. split; [constructor|]. split; [reflexivity|]. split; [exact HC|].
+      split; [reflexivity|]. split; [constructor|]. split; [reflexivity|].
+      split; [split; [discriminate|intros _; left; split; reflexivity]|].
       split; [reflexivity|discriminate].
     - assert (Ln : n < P) by lia.
       set (buckets := if cache_hit cache n then snd cache else isort (listing dirs n)) in H.
       set (cache1 := if cache_hit cache n then cache else (Some n, buckets)) in H.
       assert (Eb : buckets = sdir n).
-      { unfold buckets. destruct (cache_hit cache n) eqn:E; [apply HC; exact E|reflexivity]. }
-      assert (HC1 : cache_ok cache1).
-      { unfold cache1. destruct (cache_hit cache n) eqn:E; [exact HC|].
-        intros i Hi. unfold cache_hit in Hi; cbn in Hi. apply Nat.eqb_eq in Hi. subst i. cbn. exact Eb. }
+      { unfold buckets. destruct (cache_hit cache n) eqn:E; [|reflexivity].
+        unfold cache_hit in E. destruct (fst cache) as [j|] eqn:Ej; [|discriminate].
+        apply Nat.eqb_eq in E. subst j. destruct (HC n Ej) as [X|X]; [exact X|lia]. }
+      assert (HC1 : cache_at n cache1).
+      { unfold cache1. destruct (cache_hit cache n) eqn:E; [|split; [reflexivity|exact Eb]].
+        pose proof E as E'. unfold cache_hit in E. destruct (fst cache) as [j|] eqn:Ej; [|discriminate].
+        apply Nat.eqb_eq in E. subst j. split; [exact Ej|exact Eb]. }
+      assert (HC1w : cache_okw (S n) cache1).
+      { intros j Ej. destruct HC1 as (A & B). rewrite A in Ej. injection Ej as <-. left. exact B. }
       clearbody buckets cache1. subst buckets.
       destruct (process_prefixdir c n (sdir n) lcb o) as [[[ev lcb1] o1] x1] eqn:PP.
       destruct (ppd_spec c n (sdir n) (HS n) _ _ _ _ _ _ PP) as (done1 & rest1 & F1 & F2 & F3 & F4 & F5).
@@ -258,7 +281,8 @@ Section Dirs.
       destruct x1.
       + injection H as E1 E2 E3 E4 E5; subst evs next' lcb' cache' x.
         exists (map (pair n) done1), (map (pair n) rest1 ++ enum_range (S n) (P - S n)).
-        split; [reflexivity|]. split; [exact Fev|]. split; [exact Pev|]. split; [exact HC1|].
+        split; [reflexivity|]. split; [exact Fev|]. split; [exact Pev|].
+        split; [split; [intros _; exists n; split; [exact HC1|lia]|discriminate]|].
         split; [discriminate|]. intros _.
         split; [|split; [exact HP1|lia]].
         rewrite (todoL_later n lcb1 HP1 Ln), F4. reflexivity.
@@ -268,21 +292,24 @@ Section Dirs.
           exists (map (pair n) done1), (enum_range (S n) (P - S n)).
           split; [reflexivity|]. split.
           { apply Forall_app. split; [exact Fev|]. constructor; [reflexivity|constructor]. }
-          split; [rewrite procs_app, Pev; cbn; apply app_nil_r|]. split; [exact HC1|].
+          split; [rewrite procs_app, Pev; cbn; apply app_nil_r|].
+          split; [split; [intros _; exists n; split; [exact HC1|lia]|discriminate]|].
           split; [discriminate|]. intros _.
           split; [apply todoL_all_later; exact HP1|]. split; [|lia].
           eapply Pre_weaken; [exact HP1|lia].
         * destruct (prefix_loop dirs c (seq (S n) k) (S n) lcb1 cache1 o2) as [[[[ev2 next2] lcb2] cache2] x2] eqn:PL.
           injection H as E1 E2 E3 E4 E5; subst evs next' lcb' cache' x.
           assert (HPS : Pre (S n) lcb1) by (eapply Pre_weaken; [exact HP1|lia]).
-          destruct (IH (S n) lcb1 cache1 o2 ev2 next2 lcb2 cache2 x2 ltac:(lia) ltac:(lia) HPS HC1 PL)
-            as (done2 & rest2 & G1 & G2 & G3 & G4 & G5 & G6).
+          destruct (IH (S n) lcb1 cache1 o2 ev2 next2 lcb2 cache2 x2 ltac:(lia) ltac:(lia) HPS HC1w PL)
+            as (done2 & rest2 & G1 & G2 & G3 & (G4a & G4b) & G5 & G6).
           rewrite (todoL_all_later n lcb1 HP1) in G1.
           exists (map (pair n) done1 ++ done2), rest2.
           split; [rewrite G1, app_assoc; reflexivity|]. split.
           { apply Forall_app. split; [exact Fev|]. constructor; [reflexivity|exact G2]. }
           split; [rewrite procs_app, Pev; change (procs (EPrefixDone c n :: ev2)) with (procs ev2); rewrite G3, map_app; reflexivity|].
-          split; [exact G4|]. split; [exact G5|exact G6].
+          split; [|split; [exact G5|exact G6]].
+          split; [exact G4a|]. intros X. right. destruct (G4b X) as [(K0 & ->)|Y]; [|exact Y].
+          assert (n = P - 1) by lia. subst n. exact HC1.
   Qed.
 
 
@@ -303,22 +330,40 @@ Section Dirs.
   Lemma J_pfin c : J (pfin c).
   Proof. split; cbn; [lia|]. intros j b _ _. reflexivity. Qed.
 
-  Lemma cache_ok_empty : cache_ok (None, []).
-  Proof. intros i H. discriminate. Qed.
+  (* what is known about the listing cache between slices: while a cycle is in
+     progress the entry is the true listing of a prefix at or just before the
+     resume point; between cycles only that it is not the entry of prefix 0 *)
+  Definition CI (m : mstate) : Prop :=
+    forall j, fst (ms_cache m) = Some j ->
+      match ps_current (ms_p m) with
+      | None => 0 < j
+      | Some _ => snd (ms_cache m) = sdir j /\ ps_next (ms_p m) <= S j
+      end.
+
+  Lemma CI_load p : CI (load p).
+  Proof. intros j H. discriminate. Qed.
+
+  Lemma CI_okw m : CI m -> idle_shape (ms_p m) -> cache_okw (ps_next (ms_p m)) (ms_cache m).
+  Proof.
+    intros HC HI j Ej. specialize (HC j Ej). destruct (ps_current (ms_p m)) eqn:E.
+    - left. tauto.
+    - right. destruct (HI E) as (-> & _). exact HC.
+  Qed.
 
   Lemma run_slice_spec m o evs m' :
-    J (ms_p m) -> idle_shape (ms_p m) -> cache_ok (ms_cache m) ->
+    J (ms_p m) -> idle_shape (ms_p m) -> CI m ->
     run_slice dirs m o = (evs, m') ->
     exists front done rest tail,
       evs = front ++ tail /\ Forall (front_ev (cycle_of (ms_p m))) front /\
       procs front = map (pe (cycle_of (ms_p m))) done /\
-      todo (ms_p m) = done ++ rest /\ cache_ok (ms_cache m') /\
+      todo (ms_p m) = done ++ rest /\ CI m' /\
       ((rest = [] /\ tail = [EFinished (cycle_of (ms_p m)); ESave (pfin (cycle_of (ms_p m))); ESave (pfin (cycle_of (ms_p m)))]
         /\ ms_p m' = pfin (cycle_of (ms_p m))) \/
        (exists p', tail = [ESave p'] /\ ms_p m' = p' /\ ps_current p' = Some (cycle_of (ms_p m)) /\
           ps_last_finished p' = ps_last_finished (ms_p m) /\ todo p' = rest /\ J p')).
   Proof.
-    intros [HJ1 HJ2] HI HC H. unfold run_slice in H.
+    intros [HJ1 HJ2] HI HC0 H. unfold run_slice in H.
+    pose proof (CI_okw m HC0 HI) as HC.
     set (p := ms_p m) in *.
     set (c := cycle_of p).
     assert (Hc : (let '(c0, started) :=
@@ -340,14 +385,17 @@ Section Dirs.
     destruct (prefix_loop dirs c (seq (ps_next p) (length dirs - ps_next p)) (ps_next p) (ps_lcb p) (ms_cache m) o)
       as [[[[ev next'] lcb'] cache'] x] eqn:PL.
     destruct (prefix_loop_spec c (P - ps_next p) (ps_next p) (ps_lcb p) (ms_cache m) o ev next' lcb' cache' x
-                eq_refl HJ1 HJ2 HC PL) as (done & rest & G1 & G2 & G3 & G4 & G5 & G6).
+                eq_refl HJ1 HJ2 HC PL) as (done & rest & G1 & G2 & G3 & (G4a & G4b) & G5 & G6).
     destruct x.
     - injection H as H1 H2. subst evs m'.
       exists (started ++ ev), done, rest, [ESave (mk_pstate (ps_last_finished p) (Some c) next' lcb')].
       split; [rewrite app_assoc; reflexivity|].
       split; [apply Forall_app; split; assumption|].
       split; [rewrite procs_app, Ps, G3; reflexivity|].
-      split; [exact G1|]. split; [exact G4|]. right.
+      split; [exact G1|]. split.
+      { destruct (G4a eq_refl) as (j0 & (A & B) & L). intros j Ej. cbn in *. rewrite A in Ej. injection Ej as <-.
+        split; [exact B|exact L]. }
+      right.
       destruct (G6 eq_refl) as (T1 & T2 & T3).
       eexists. split; [reflexivity|]. cbn. split; [reflexivity|]. split; [reflexivity|]. split; [reflexivity|].
       split; [exact T1|]. split; [exact T3|exact T2].
@@ -356,7 +404,13 @@ Section Dirs.
       split; [rewrite app_assoc; reflexivity|].
       split; [apply Forall_app; split; assumption|].
       split; [rewrite procs_app, Ps, G3; reflexivity|].
-      split; [exact G1|]. split; [exact G4|]. left.
+      split; [exact G1|]. split.
+      { intros j Ej. cbn in *. destruct (G4b eq_refl) as [(K0 & ->)|(A & _)].
+        - specialize (HC0 j Ej). fold p in HC0. destruct (ps_current p) eqn:Ec.
+          + destruct HC0 as (_ & L). unfold P in *. lia.
+          + exact HC0.
+        - rewrite A in Ej. injection Ej as <-. unfold P in *. lia. }
+      left.
       split; [apply G5; reflexivity|]. split; reflexivity.
   Qed.
 
@@ -376,7 +430,7 @@ Section Dirs.
       todo p = done ++ rest -> m' = load p -> outcome p s evs m'
   | OutSaved front done rest p' :       (* slice used up its time and saved *)
       evs = front ++ [ESave p'] -> Forall (front_ev (cycle_of p)) front -> procs front = map (pe (cycle_of p)) done ->
-      todo p = done ++ rest -> ms_p m' = p' -> cache_ok (ms_cache m') ->
+      todo p = done ++ rest -> ms_p m' = p' -> CI m' ->
       ps_current p' = Some (cycle_of p) -> ps_last_finished p' = ps_last_finished p -> todo p' = rest -> J p' ->
       outcome p s evs m'
   | OutFinishedLost front done :        (* cycle finished, killed before save_state *)
@@ -387,10 +441,10 @@ Section Dirs.
       evs = front ++ EFinished (cycle_of p) :: saves ->
       (saves = [ESave (pfin (cycle_of p))] \/ saves = [ESave (pfin (cycle_of p)); ESave (pfin (cycle_of p))]) ->
       Forall (front_ev (cycle_of p)) front -> procs front = map (pe (cycle_of p)) done -> todo p = done ->
-      ms_p m' = pfin (cycle_of p) -> cache_ok (ms_cache m') -> outcome p s evs m'.
+      ms_p m' = pfin (cycle_of p) -> CI m' -> outcome p s evs m'.
 
   Lemma do_slice_outcome m s evs m' :
-    J (ms_p m) -> idle_shape (ms_p m) -> cache_ok (ms_cache m) ->
+    J (ms_p m) -> idle_shape (ms_p m) -> CI m ->
     do_slice dirs m s = (evs, m') -> outcome (ms_p m) s evs m'.
   Proof.
     intros HJ HI HC H. unfold do_slice in H.
@@ -417,12 +471,12 @@ Section Dirs.
           destruct k' as [|[|[|k']]]; [lia| | |]; cbn; rewrite ?firstn_nil.
           -- apply (OutFinishedLost _ _ _ _ front done); [rewrite Kl; discriminate|reflexivity|exact F|exact Pf|exact T|reflexivity].
           -- apply (OutFinished _ _ _ _ front done [ESave (pfin (cycle_of (ms_p m)))]);
-               [reflexivity|left; reflexivity|exact F|exact Pf|exact T|reflexivity|apply cache_ok_empty].
+               [reflexivity|left; reflexivity|exact F|exact Pf|exact T|reflexivity|apply CI_load].
           -- apply (OutFinished _ _ _ _ front done [ESave (pfin (cycle_of (ms_p m))); ESave (pfin (cycle_of (ms_p m)))]);
-               [reflexivity|right; reflexivity|exact F|exact Pf|exact T|reflexivity|apply cache_ok_empty].
+               [reflexivity|right; reflexivity|exact F|exact Pf|exact T|reflexivity|apply CI_load].
         * destruct k' as [|k']; [lia|]. cbn. rewrite firstn_nil. subst p'.
           apply (OutSaved _ _ _ _ front done rest (ms_p m0));
-            [reflexivity|exact F|exact Pf|exact T|reflexivity|apply cache_ok_empty|exact Q1|exact Q2|exact Q3|exact Q4].
+            [reflexivity|exact F|exact Pf|exact T|reflexivity|apply CI_load|exact Q1|exact Q2|exact Q3|exact Q4].
     - injection H as H1 H2. subst evs0 m0. subst evs.
       destruct Cases as [(R0 & Tl & Pm)|(p' & Tl & Pm & Q1 & Q2 & Q3 & Q4)]; subst tail.
       + rewrite R0, app_nil_r in T.
@@ -444,7 +498,7 @@ Section Dirs.
     forall ib, In ib all_buckets -> In (pe c ib) pre.
 
   Definition Inv (tr : list event) (m : mstate) : Prop :=
-    J (ms_p m) /\ idle_shape (ms_p m) /\ cache_ok (ms_cache m) /\ covered tr (ms_p m) /\ fincov tr.
+    J (ms_p m) /\ idle_shape (ms_p m) /\ CI m /\ covered tr (ms_p m) /\ fincov tr.
 
   Lemma fincov_app tr new : fincov tr ->
     (forall pre2 c post, new = pre2 ++ EFinished c :: post ->
@@ -500,7 +554,7 @@ Section Dirs.
          |front done _ E F Pf T Em
          |front done saves E Sv F Pf T Em Cm]; subst evs.
     - (* killed before any save *)
-      subst m'. cbn. split; [exact HJ|]. split; [exact HI|]. split; [apply cache_ok_empty|]. split.
+      subst m'. cbn. split; [exact HJ|]. split; [exact HI|]. split; [apply CI_load|]. split.
       + intros ib I. destruct (HCov ib I) as [X|X]; [left; apply in_app_iff; left; exact X|right; exact X].
       + apply fincov_app; [exact HF|]. intros pre2 c post E. exfalso.
         apply (front_no_fin _ c front F). rewrite E. apply in_app_iff. right. left. reflexivity.
@@ -515,7 +569,7 @@ Section Dirs.
         assert (I : In (EFinished c) (front ++ [ESave p'])) by (rewrite E; apply in_app_iff; right; left; reflexivity).
         apply in_app_iff in I as [I|[I|[]]]; [exact (front_no_fin _ c front F I)|discriminate].
     - (* finished, save lost *)
-      subst m'. cbn. split; [exact HJ|]. split; [exact HI|]. split; [apply cache_ok_empty|]. split.
+      subst m'. cbn. split; [exact HJ|]. split; [exact HI|]. split; [apply CI_load|]. split.
       + intros ib I. destruct (HCov ib I) as [X|X]; [left; apply in_app_iff; left; exact X|right; exact X].
       + apply fincov_app; [exact HF|]. intros pre2 c post E ib I.
         destruct (fin_position _ c front [] pre2 post F (Forall_nil _) E) as (-> & ->).
@@ -533,7 +587,7 @@ Section Dirs.
   Lemma Inv_init : Inv [] (load init_pstate).
   Proof.
     split; [split; cbn; [lia|intros j b _ _; reflexivity]|].
-    split; [intros _; split; reflexivity|]. split; [apply cache_ok_empty|]. split.
+    split; [intros _; split; reflexivity|]. split; [apply CI_load|]. split.
     - intros ib I. right. unfold todo; cbn. rewrite todoL_start. exact I.
     - intros pre c post E. destruct pre; discriminate.
   Qed.
@@ -752,6 +806,33 @@ Section Dirs.
       + eapply k_step; eauto.
   Qed.
 
+  (* ---------- starting from any idle state (bucket set changed between cycles) ---------- *)
+
+  Lemma Inv_idle m : idle_ok m -> Inv [] m.
+  Proof.
+    intros (E1 & E2 & E3 & E4). unfold Inv.
+    split; [split; [rewrite E2; lia|rewrite E2, E3; intros j b _ _; reflexivity]|].
+    split; [intros _; split; assumption|].
+    split; [intros j Ej; rewrite E1; apply E4; exact Ej|]. split.
+    - intros ib I. right. unfold todo. rewrite E2, E3, todoL_start. exact I.
+    - intros pre c post E. destruct pre; discriminate.
+  Qed.
+
+  Lemma idle_ok_of_Inv tr m : Inv tr m -> ps_current (ms_p m) = None -> idle_ok m.
+  Proof.
+    intros (_ & HI & HC & _) E. destruct (HI E) as (A & B).
+    split; [exact E|]. split; [exact A|]. split; [exact B|].
+    intros j Ej. specialize (HC j Ej). rewrite E in HC. exact HC.
+  Qed.
+
+  Lemma coverage_from_idle specs m tr m' :
+    idle_ok m -> run dirs m specs = (tr, m') ->
+    fincov tr /\ (ps_current (ms_p m') = None -> idle_ok m').
+  Proof.
+    intros HI H. pose proof (run_inv specs [] _ _ _ (Inv_idle m HI) H) as HInv. cbn [app] in HInv.
+    split; [destruct HInv as (_ & _ & _ & _ & F); exact F|]. intros E. eapply idle_ok_of_Inv; eauto.
+  Qed.
+
 End Dirs.
 
 (* ---------- the order hypotheses follow from the directory layout ---------- *)
@@ -836,6 +917,48 @@ Section Final.
   Variable prefixes : list name.
   Hypothesis prefixes_sorted : StronglySorted nlt prefixes.
   Hypothesis prefixes_len : forall p q, In p prefixes -> In q prefixes -> length p = length q.
+  Hypothesis prefixes_two : 2 <= length prefixes.
+
+  Lemma wf_P2 dirs : wf_dirs prefixes dirs -> 2 <= P dirs.
+  Proof. intros (L & _). unfold P. rewrite L. exact prefixes_two. Qed.
+
+  Lemma idle_ok_init : idle_ok (load init_pstate).
+  Proof. repeat split; try reflexivity. intros j H; discriminate. Qed.
+
+  Lemma epochs_idle_ok : forall eps m tr m',
+    idle_ok m -> (forall e, In e eps -> wf_dirs prefixes (fst e)) -> epochs_end_idle m eps ->
+    run_epochs m eps = (tr, m') -> idle_ok m'.
+  Proof.
+    induction eps as [|[dirs specs] r IH]; intros m tr m' HI W HE H; cbn in H.
+    - injection H as <- <-. exact HI.
+    - cbn in HE. destruct (run dirs m specs) as [e1 m1] eqn:R.
+      destruct (run_epochs m1 r) as [e2 m2] eqn:RE. injection H as <- <-.
+      cbn in HE. destruct HE as (Hid & HE').
+      pose proof (W (dirs, specs) (or_introl eq_refl)) as Wd. cbn in Wd.
+      destruct (coverage_from_idle dirs (wf_HS prefixes dirs Wd) (wf_HX prefixes prefixes_sorted prefixes_len dirs Wd) (wf_P2 dirs Wd)
+                  specs m e1 m1 HI R) as (_ & Hnext).
+      eapply IH; [exact (Hnext Hid)| |exact HE'|exact RE].
+      intros e Ie. apply W. right. exact Ie.
+  Qed.
+
+  (* Bucket sets that change while the crawler is idle: whatever happened in
+     earlier epochs (other directory contents, any interruptions and kills, the
+     same crawler object with its listing cache), a cycle that finishes in the
+     current epoch has processed every bucket of the current contents. *)
+  Lemma covers_all_epochs_gen eps dirs specs tr1 m1 tr2 m2 pre c post :
+    (forall e, In e eps -> wf_dirs prefixes (fst e)) -> wf_dirs prefixes dirs ->
+    epochs_end_idle (load init_pstate) eps ->
+    run_epochs (load init_pstate) eps = (tr1, m1) ->
+    run dirs m1 specs = (tr2, m2) ->
+    tr2 = pre ++ EFinished c :: post ->
+    forall i b, In b (nth i dirs []) -> In (EProc c i b) pre.
+  Proof.
+    intros W Wd HE R1 R2 E i b I.
+    pose proof (epochs_idle_ok eps _ _ _ idle_ok_init W HE R1) as HI.
+    destruct (coverage_from_idle dirs (wf_HS prefixes dirs Wd) (wf_HX prefixes prefixes_sorted prefixes_len dirs Wd) (wf_P2 dirs Wd)
+                specs m1 tr2 m2 HI R2) as (F & _).
+    apply (F pre c post E (i, b)). apply in_all. unfold sdir, listing. apply isort_In. exact I.
+  Qed.
 
   Lemma covers_all_gen dirs specs tr m pre c post :
     wf_dirs prefixes dirs ->
@@ -844,7 +967,7 @@ Section Final.
     forall i b, In b (nth i dirs []) -> In (EProc c i b) pre.
   Proof.
     intros W R E i b I.
-    pose proof (coverage dirs (wf_HS prefixes dirs W) (wf_HX prefixes prefixes_sorted prefixes_len dirs W) specs tr m R) as F.
+    pose proof (coverage dirs (wf_HS prefixes dirs W) (wf_HX prefixes prefixes_sorted prefixes_len dirs W) (wf_P2 dirs W) specs tr m R) as F.
     apply (F pre c post E (i, b)). apply in_all. unfold sdir, listing. apply isort_In. exact I.
   Qed.
 
@@ -861,7 +984,7 @@ Section Final.
     intros W NK R.
     pose proof (wf_HS prefixes dirs W) as HS.
     pose proof (wf_HX prefixes prefixes_sorted prefixes_len dirs W) as HX.
-    destruct (run_einv dirs HS HX specs [] _ _ _ NK (Inv_init dirs) (EInv_init dirs) R) as (_ & E1 & E2 & E3 & E4 & E5).
+    destruct (run_einv dirs HS HX (wf_P2 dirs W) specs [] _ _ _ NK (Inv_init dirs (wf_P2 dirs W)) (EInv_init dirs (wf_P2 dirs W)) R) as (_ & E1 & E2 & E3 & E4 & E5).
     cbn [app] in *.
     assert (C1 : forall c i b, count_occ event_eq_dec tr (EProc c i b) <= 1).
     { intros c i b. rewrite count_procs by reflexivity. apply NoDup_count_occ. exact E1. }
@@ -886,7 +1009,7 @@ Section Final.
     intros W R.
     pose proof (wf_HS prefixes dirs W) as HS.
     pose proof (wf_HX prefixes prefixes_sorted prefixes_len dirs W) as HX.
-    pose proof (run_kinv dirs HS HX specs [] _ _ _ (Inv_init dirs) (KInv_init) R) as (K1 & _ & _ & _ & K5 & K6).
+    pose proof (run_kinv dirs HS HX (wf_P2 dirs W) specs [] _ _ _ (Inv_init dirs (wf_P2 dirs W)) (KInv_init) R) as (K1 & _ & _ & _ & K5 & K6).
     cbn [app] in *. split; [exact K1|]. split; [exact K5|exact K6].
   Qed.
 End Final.
